@@ -217,6 +217,11 @@ impl Lex {
                             self.take_char();
                             self.tmp.pop();
                         }
+                        Some('o') => {
+                            radix = Some(8);
+                            self.take_char();
+                            self.tmp.pop();
+                        }
                         _ => ()
                     }
                 }
